@@ -154,7 +154,7 @@ def spec_selfcheck():
 
 
 def run(tier):
-    run = Run(PROP, tier, 'proof')
+    run = Run(PROP, tier, 'other')
     specs.selfcheck()
     spec_selfcheck()
     h = build()
